@@ -55,7 +55,7 @@ Verdict(ev, o) ==
     LET t == FromJTree(o.tree)
         env == ev.env
         rev == RevEnvFor(t, env)
-        wf == WellFormed(t)
+        wf == ~UnresJ(o.tree) /\ WellFormed(t)
         bdet == wf /\ BagDet(t, env) /\ BagDet(t, rev)
         ldet == wf /\ ListDet(t, env) /\ ListDet(t, rev)
         ref == RefRows(ev, o.m)
